@@ -237,6 +237,46 @@ fn random_worlds(rng: &mut Rng, n: usize) -> Vec<(World, GenDict)> {
     out
 }
 
+/// worlds with generated character / unknown-word definitions: private-use letters that belong to one, two or three classes, every
+/// class with its own invoke / group / length setting and one or two unk.def lines, the MeCab provider in front of the simple fallback
+/// (one world without the fallback: "err" is allowed there, a panic never is).  The shipped fixture definitions give every character
+/// of interest a single class with a fixed setting; the arithmetic on run lengths per class is only reached here.
+fn oovdef_worlds(thorough: bool) -> Vec<World> {
+    // (invoke, group, length) per class
+    let settings: [(u8, u8, u8); 6] = [(1, 1, 0), (0, 1, 2), (1, 0, 1), (0, 0, 3), (1, 1, 3), (0, 0, 0)];
+    let mut combos: Vec<[usize; 3]> = Vec::new();
+    for a in 0..settings.len() { for b in 0..settings.len() { for c in 0..settings.len() {
+        if thorough || (a * 7 + b * 3 + c) % 6 == 0 || (a == b && b == c) { combos.push([a, b, c]); }
+    } } }
+    let sys = dicts::build_system("東,0,0,100,東,名詞,普通名詞,一般,*,*,*,ヒガシ,東,*,A,*,*,*,*\n\u{E001}\u{E003},1,1,-50,\u{E001}\u{E003},名詞,普通名詞,一般,*,*,*,エー,\u{E001}\u{E003},*,A,*,*,*,*\n".as_bytes(),
+        b"2 2\n0 0 0\n0 1 1\n1 0 -2\n1 1 3\n").expect("oovdef system dictionary");
+    let mut out = Vec::new();
+    for (k, combo) in combos.iter().enumerate() {
+        let res = dicts::scratch_dir(&format!("c03oov{}", k % 8));
+        let mut cd = String::from("0xE001 KANJI\n0xE002 HIRAGANA\n0xE003 KANJI HIRAGANA\n0xE004 KANJI HIRAGANA KATAKANA\n0xE005 KATAKANA\n0xE006 HIRAGANA KATAKANA\n0xE007 ALL NOOOVBOW\n0xE008 ALL NOOOVBOW2\n0x6771 KANJI\n");
+        let names = ["KANJI", "HIRAGANA", "KATAKANA"];
+        let mut ud = String::new();
+        for (ci, name) in names.iter().enumerate() {
+            let (i, g, l) = settings[combo[ci]];
+            cd.push_str(&format!("{} {} {} {}\n", name, i, g, l));
+            ud.push_str(&format!("{},{},{},{},名詞,普通名詞,一般,*,*,*\n", name, ci % 2, (ci + 1) % 2, 300 + 10 * ci as i32));
+            if (k + ci) % 3 == 0 { ud.push_str(&format!("{},1,0,{},名詞,固有名詞,一般,*,*,*\n", name, 250 - 5 * ci as i32)); }
+        }
+        cd.push_str(&format!("DEFAULT {} {} {}\n", k % 2, (k / 2) % 2, k % 3));
+        ud.push_str("DEFAULT,0,0,500,補助記号,一般,*,*,*,*\n");
+        std::fs::write(res.join("char.def"), cd).unwrap();
+        std::fs::write(res.join("unk.def"), ud).unwrap();
+        let fallback = k % 9 != 4;
+        let cfg = format!(r#"{{"characterDefinitionFile":"char.def","inputTextPlugin":[],"oovProviderPlugin":[{{"class":"com.worksap.nlp.sudachi.MeCabOovPlugin","charDef":"char.def","unkDef":"unk.def","userPOS":"allow"}}{}],"pathRewritePlugin":[]}}"#,
+            if fallback { r#",{"class":"com.worksap.nlp.sudachi.SimpleOovPlugin","oovPOS":["名詞","普通名詞","一般","*","*","*"],"leftId":0,"rightId":0,"cost":9000,"userPOS":"allow"}"# } else { "" });
+        match dicts::load(&cfg, &res, sys.clone(), vec![]) {
+            Ok(dict) => out.push(World { name: format!("oovdef{}", k), dict: Rc::new(dict), meta: json!({"has_fallback_oov": fallback, "combo": combo.to_vec()}) }),
+            Err(e) => panic!("oovdef world {}: {:?}", k, e),
+        }
+    }
+    out
+}
+
 /// `vh c03-record <out> --seed S --tier quick|thorough`
 pub fn record(args: &[String]) -> i32 {
     quiet_panics();
@@ -325,8 +365,31 @@ pub fn record(args: &[String]) -> i32 {
             run_case(&mut tr, run, w, &mut t, tok::mode_of(k), &rep(&unit, n, ""), json!({"part": "gen"}));
         }
     }
+    // 6. generated character / unknown-word definitions: every text of at most 3 letters (thorough: 4) over letters of one, two
+    //    and three classes, a combining-like and a joiner-like letter and a dictionary word
+    let letters = ["\u{E001}", "\u{E002}", "\u{E003}", "\u{E004}", "\u{E005}", "\u{E006}", "\u{E007}", "\u{E008}", "東", "x"];
+    let maxlen = if thorough { 4 } else { 3 };
+    let mut all_texts: Vec<String> = vec![String::new()];
+    let mut frontier: Vec<String> = vec![String::new()];
+    for _ in 0..maxlen {
+        let mut next = Vec::new();
+        for t in frontier.iter() { for l in letters.iter() { next.push(format!("{}{}", t, l)); } }
+        all_texts.extend(next.iter().cloned());
+        frontier = next;
+    }
+    let mut n_oovdef = 0usize;
+    for (wk, w) in oovdef_worlds(thorough).iter().enumerate() {
+        let mut t = Sess::new(w);
+        for (ti, text) in all_texts.iter().enumerate() {
+            // quick: every world sees all texts of <= 2 letters and every fourth longer one (a different quarter per world)
+            if !thorough && text.chars().count() > 2 && (ti + wk) % 4 != 0 { continue; }
+            run += 1;
+            n_oovdef += 1;
+            run_case(&mut tr, run, w, &mut t, tok::mode_of(ti), &json!({"k": "cps", "cps": cps(text)}), json!({"part": "oovdef"}));
+        }
+    }
     let n = tr.finish();
-    println!("{}", json!({"events": n, "runs": run}));
+    println!("{}", json!({"events": n, "runs": run, "oovdef_runs": n_oovdef}));
     0
 }
 
